@@ -534,6 +534,58 @@ def job_simple(args):
     return rep
 
 
+def job_session(args):
+    """One Rst formatter object used for several results in a row (the reports of two runs, or two results of one report):
+    what it produces for a result is what a fresh formatter produces for that result - in particular it carries the failure
+    marks of THAT result - whatever it formatted before."""
+    (family,) = args
+    from valjean.javert import representation as rpr
+    from valjean.javert.rst import Rst
+    from valjean.javert.verbosity import Verbosity
+    rep = Report()
+    if family == 'stats_tasks':
+        specs = [('DONE',), ('FAILED',), ('DONE', 'DONE'), ('DONE', 'FAILED'), ('FAILED', 'DONE')]
+        build = kit.build_stats_tasks
+    elif family == 'stats_tests':
+        specs = [((True,),), ((False,),), ((True,), (True,)), ((True,), (False,)), ((True,), None)]
+        build = kit.build_stats_tests
+    elif family == 'stats_labels':
+        specs = [((True, 'd1'),), ((False, 'd1'),), ((True, 'd1'), (True, 'd2')), ((True, 'd1'), (False, 'd2'))]
+        build = kit.build_stats_labels
+    elif family == 'metadata':
+        specs = [(True,), (False,), (True, True), (True, False)]
+        build = kit.build_metadata
+    else:
+        specs = [((False, False, False),), ((False, True, False),), ((True, True, True),)]
+
+        def build(spec):
+            return kit.build(family, shape=(3,), patterns=spec)
+    for verb in Verbosity:
+        def fresh(result, verb=verb):
+            return '\n'.join(Rst(rpr.Representation(rpr.FullRepresenter(), verbosity=verb)).format_result(result))
+        for one, two in itertools.product(specs, repeat=2):
+            results = [build(one)[1], build(two)[1]]
+            session = Rst(rpr.Representation(rpr.FullRepresenter(), verbosity=verb))
+            case = {'kind': family, 'formatted in a row by one Rst object': [repr(one), repr(two)], 'verbosity': verb.name}
+            try:
+                texts = ['\n'.join(session.format_result(res)) for res in results]
+            except Exception as exc:  # pylint: disable=broad-except
+                rep.violate(f'C12|session|raises|{type(exc).__name__}|{family}', f'formatting {one!r} then {two!r} raised {exc!r}', case)
+                continue
+            differs = bool(results[0]) != bool(results[1])
+            rep.case(nontrivial=(family, repr(one), repr(two), verb.name) if differs else None, outcome=('session', family, differs))
+            for which, (res, text) in enumerate(zip(results, texts)):
+                want = fresh(res)
+                if text != want:
+                    _, tables, loose = parse_rst(text)
+                    marks = bool(loose) or any(c[1] for t in tables for r in t for c in r)
+                    clause = 'mark-vs-verdict' if verb.name != 'SILENT' and marks != (not bool(res)) else 'history-dependent'
+                    rep.violate(f'C12|session|{clause}|{family}|{verb.name}', f'result #{which + 1} of the sequence {one!r}, {two!r} (verdict '
+                                f'{bool(res)}) is not rendered as by a fresh formatter (failure mark present={marks})', case)
+    rep.sample({'kind': family, 'formatted in a row by one Rst object': [repr(specs[0]), repr(specs[1])]})
+    return rep
+
+
 def _call(job):
     return job[0](job[1])
 
@@ -546,6 +598,8 @@ def run(tier, seed):
             jobs.append((job_dataset, (kind, cases[i:i + 24])))
     for family in ('metadata', 'stats_tasks', 'stats_tests', 'stats_labels', 'failed'):
         jobs.append((job_simple, (family, tier)))
+    for family in ('stats_tasks', 'stats_tests', 'stats_labels', 'metadata', 'equal', 'student', 'holm'):
+        jobs.append((job_session, (family,)))
     return pool.pmap(_call, jobs, seed)
 
 
